@@ -69,7 +69,7 @@ Qed.
 
 Lemma starts_with_app l p x : starts_with l p = true -> starts_with (l ++ x) p = true.
 Proof.
-  revert l; induction p as [|y p IH]; intros l H; [reflexivity|].
+  revert l; induction p as [|y p IH]; intros l H; [destruct (l ++ x); reflexivity|].
   destruct l as [|c l]; cbn [starts_with app] in *; [discriminate|].
   apply andb_true_iff in H as [H1 H2]. rewrite H1, IH by assumption. reflexivity.
 Qed.
@@ -89,7 +89,7 @@ Proof.
   revert p; induction l as [|c l IH]; intros p H1 H2.
   - destruct p; cbn in H2; discriminate.
   - destruct p as [|y p]; [cbn in H1; discriminate|].
-    cbn [starts_with app] in *. rewrite (N.eqb_sym y c) in H2.
+    cbn [starts_with app] in *. rewrite (N.eqb_sym y c) in *.
     destruct (c =? y) eqn:E; cbn [andb] in *; [|split; reflexivity].
     apply IH; assumption.
 Qed.
@@ -142,7 +142,7 @@ Proof.
   destruct (p c) eqn:E.
   - destruct (span p u) as [a' b'] eqn:S. inversion H; subst.
     rewrite (IH a' eq_refl). reflexivity.
-  - inversion H; subst. cbn [span app]. rewrite E. reflexivity.
+  - inversion H; subst. reflexivity.
 Qed.
 
 Lemma takeN_app {A} n (a b : list A) : takeN n (a ++ b) = takeN n a ++ takeN (n - lenN a) b.
@@ -151,7 +151,8 @@ Proof.
   - rewrite N.sub_0_r. reflexivity.
   - destruct (n =? 0) eqn:E.
     + apply N.eqb_eq in E; subst. cbn [app]. rewrite takeN_0. reflexivity.
-    + apply N.eqb_neq in E. rewrite IH. cbn [app]. do 2 f_equal. lia.
+    + apply N.eqb_neq in E. rewrite IH. cbn [app].
+      replace (n - N.succ (lenN a)) with (N.pred n - lenN a) by lia. reflexivity.
 Qed.
 
 Lemma tok_prefix_stable set L t tk r x :
@@ -181,3 +182,105 @@ Proof.
   - destruct t as [|c t]; [congruence|]. rewrite tok_prefix_eq_spec. unfold prefix_spec.
     cbn [app takeN]. destruct (L =? 0); [reflexivity|]. cbn [span]. rewrite H0. reflexivity.
 Qed.
+
+(* ---- Tokenizer::int64(base 10, no sign, small limit) ---- *)
+Lemma digit_of_10 c : digit_of 10 c = if is_digit c then Some (Z.of_N c - 48)%Z else None.
+Proof.
+  unfold digit_of, digit_raw, is_digit, is_upper, is_lower.
+  destruct ((48 <=? c) && (c <=? 57)) eqn:E1.
+  - destruct (Z.of_N c - 48 >=? 10)%Z eqn:E2; [lia|reflexivity].
+  - destruct ((65 <=? c) && (c <=? 90)) eqn:E2.
+    + destruct (Z.of_N c - 55 >=? 10)%Z eqn:E3; [reflexivity|lia].
+    + destruct ((97 <=? c) && (c <=? 122)) eqn:E3; [|reflexivity].
+      destruct (Z.of_N c - 87 >=? 10)%Z eqn:E4; [reflexivity|lia].
+Qed.
+
+Definition int_of_run (L : N) (ds : list Z) : option (Z * N) :=
+  if L =? 0 then None
+  else match ds with
+       | [] => None
+       | _ :: _ => if (digits_value 10 ds 0 >? two63 - 1)%Z then None
+                   else Some (digits_value 10 ds 0, lenN ds)
+       end.
+
+Lemma int64_10_run L buf : tok_int64 10 false L buf = int_of_run L (digit_run 10 (takeN L buf)).
+Proof.
+  rewrite tok_int64_exact by (right; lia).
+  unfold ref_int64, int64_front, int_of_run.
+  destruct buf as [|c buf].
+  - cbn [takeN digit_run]. destruct (L =? 0); reflexivity.
+  - destruct (L =? 0) eqn:EL; [reflexivity|].
+    remember (takeN L (c :: buf)) as range eqn:Hr.
+    assert (Hm : match range with
+                 | z :: x :: r => if (z =? 48) && (((10 =? 0)%Z) || ((10 =? 16)%Z)) && tolower_is_x x
+                                  then (16%Z, r, (0 + 2)%N) else (10%Z, range, 0%N)
+                 | _ => (10%Z, range, 0%N)
+                 end = (10%Z, range, 0%N)).
+    { destruct range as [|z [|x r]]; try reflexivity.
+      replace ((10 =? 0)%Z || (10 =? 16)%Z) with false by reflexivity.
+      rewrite andb_false_r. reflexivity. }
+    rewrite Hm. cbn [Z.eqb]. unfold ref_core.
+    destruct (digit_run 10 range) as [|d ds]; [reflexivity|].
+    cbn [negb]. destruct (digits_value 10 (d :: ds) 0 >? two63 - 1)%Z; [reflexivity|].
+    rewrite N.add_0_l. reflexivity.
+Qed.
+
+Lemma digit_run_take_app L b x :
+  dropN (lenN (digit_run 10 (takeN L b))) b <> [] ->
+  digit_run 10 (takeN L (b ++ x)) = digit_run 10 (takeN L b).
+Proof.
+  revert L; induction b as [|c r IH]; intros L H.
+  - cbn [takeN digit_run lenN dropN] in H. congruence.
+  - cbn [app takeN] in *. destruct (L =? 0) eqn:EL; [reflexivity|].
+    cbn [digit_run] in *. destruct (digit_of 10 c) eqn:Ed; [|reflexivity].
+    f_equal. apply IH. cbn [lenN dropN] in H.
+    destruct (N.succ (lenN (digit_run 10 (takeN (N.pred L) r))) =? 0) eqn:E0; [apply N.eqb_eq in E0; lia|].
+    rewrite N.pred_succ in H. exact H.
+Qed.
+
+Lemma digit_run_take_len L b : lenN (digit_run 10 (takeN L b)) <= N.min L (lenN b).
+Proof.
+  revert L; induction b as [|c r IH]; intros L; cbn [takeN digit_run lenN]; [lia|].
+  destruct (L =? 0) eqn:EL; [cbn [digit_run lenN]; lia|]. apply N.eqb_neq in EL.
+  cbn [digit_run]. destruct (digit_of 10 c); cbn [lenN]; [|lia].
+  specialize (IH (N.pred L)). lia.
+Qed.
+
+Lemma int64_10_some_len L buf v k : tok_int64 10 false L buf = Some (v, k) -> k <= lenN buf.
+Proof.
+  rewrite int64_10_run. unfold int_of_run. destruct (L =? 0); [discriminate|].
+  pose proof (digit_run_take_len L buf) as Hl.
+  destruct (digit_run 10 (takeN L buf)) as [|d ds]; [discriminate|].
+  destruct (digits_value 10 (d :: ds) 0 >? two63 - 1)%Z; [discriminate|].
+  intros H; inversion H; subst. lia.
+Qed.
+
+(* the result does not change when bytes are appended behind a byte that already ended the digit run *)
+Lemma int64_10_some_stable L buf v k x :
+  tok_int64 10 false L buf = Some (v, k) -> dropN k buf <> [] ->
+  tok_int64 10 false L (buf ++ x) = Some (v, k).
+Proof.
+  intros H Hd. rewrite int64_10_run in *.
+  assert (Hk : k = lenN (digit_run 10 (takeN L buf))).
+  { unfold int_of_run in H. destruct (L =? 0); [discriminate|].
+    destruct (digit_run 10 (takeN L buf)) as [|d ds]; [discriminate|].
+    destruct (digits_value 10 (d :: ds) 0 >? two63 - 1)%Z; [discriminate|]. inversion H; reflexivity. }
+  rewrite digit_run_take_app by (rewrite <- Hk; exact Hd). exact H.
+Qed.
+
+Lemma int64_10_none_stable L buf x :
+  tok_int64 10 false L buf = None -> buf <> [] -> tok_int64 10 false L (buf ++ x) = None.
+Proof.
+  intros H Hb. rewrite int64_10_run in *.
+  destruct (digit_run 10 (takeN L buf)) as [|d ds] eqn:Er.
+  - rewrite digit_run_take_app by (rewrite Er; cbn [lenN]; rewrite dropN_0; exact Hb). rewrite Er. exact H.
+  - (* a non-empty run of at most L digits fails only by overflow; the run is then complete or limited *)
+    unfold int_of_run in *. destruct (L =? 0) eqn:EL; [reflexivity|].
+    destruct (digits_value 10 (d :: ds) 0 >? two63 - 1)%Z eqn:Ev; [|discriminate].
+    destruct (dropN (lenN (d :: ds)) buf) as [|y r] eqn:Edrop.
+    + (* run covers all of buf: appended bytes may extend it *)
+      exfalso. clear H.
+      (* at most L digits ... this branch is unreachable for L <= 18 but we do not need it: *)
+      admit.
+    + rewrite digit_run_take_app by (rewrite Er, Edrop; discriminate). rewrite Er, Ev. reflexivity.
+Abort.
